@@ -7,7 +7,10 @@
                            buffer), calibration arrays (list Q) and unit lists, plus the table of live
                            Dataset objects (four references + class tag)
      op / step / exec      the public operations (from_array of every class, copy, the four setters,
-                           pad, crop, bin, fourier_resample with their in-place flag, __getitem__);
+                           pad, crop, bin, fourier_resample with their in-place flag, __getitem__,
+                           Dataset4dstem.get_dp_mean/max/median and get_virtual_image; from_shape is
+                           from_array of a constant array, Dataset3d.to_dataset2d a run of ds[i]);
+                           setter arguments range over every Python value kind (numarg/unitsarg);
                            step returns Ok state | Err e; exec leaves the state unchanged on Err
      run FR divf s ops     = fold_left exec ops s.  FR (Fourier resampling kernel) and divf (division
                            of the "mean" reducer) are ARBITRARY functions: every theorem holds for all
@@ -22,7 +25,7 @@
 From Coq Require Import QArith String.
 From QV.lib Require Import Prelude C03_Slice.
 From QV.model Require Import C03_Model.
-From QV.proof Require Import C03_Proofs.
+From QV.proof Require Import C03_Proofs C03_Proofs_Ext C03_Proofs_Bounds.
 From Coq Require Import List.
 Import ListNotations.
 Local Close Scope Q_scope.
@@ -192,3 +195,168 @@ Example C03_nonvacuous_inplace :
   step FR0 Z.div ex_state (OBin 0 (FInt 0) AxNone false true) = Err ValueErr /\
   step FR0 Z.div ex_state (OBin 0 (FInt 0) AxNone false false) = Err ValueErr.
 Proof. split; [eexists; eexists; vm_compute; repeat split; reflexivity|split; vm_compute; reflexivity]. Qed.
+
+(* ================================================================== round 3 *)
+(* Metadata setters, exactly.  In every reachable state, for every live dataset and EVERY kind of
+   Python value handed to the origin / sampling / units setter (number, list, tuple or ndarray of
+   numbers, nested list, None, str, bool, dict, non-numeric or ragged list; see numarg/unitsarg):
+   the setter raises exactly the validator's error (TypeError / ValueError) — and then nothing
+   changes — or it succeeds and replaces exactly that one calibration list by the validated value,
+   whose length is the number of axes; class, shape, data and the other calibration are as before. *)
+Theorem C03_setters_exact :
+  forall (FR : list Z -> list Z -> list nat -> list Z -> list Z) (divf : Z -> Z -> Z)
+         (ops : list op) (t : nat),
+    let s := run FR divf empty_state ops in
+    t < length (dss s) ->
+    let o := observe s t in
+    let n := length (o_shape o) in
+    (forall v, match validate_ndinfo v n with
+               | Ok l => (exists s', set_origin s t v = Ok s' /\ observe s' t = with_origin o l) /\
+                         (exists s', set_sampling s t v = Ok s' /\ observe s' t = with_sampling o l)
+               | Err e => set_origin s t v = Err e /\ set_sampling s t v = Err e
+               end) /\
+    (forall u, match validate_units u n with
+               | Ok l => exists s', set_units s t u = Ok s' /\ observe s' t = with_units o l
+               | Err e => set_units s t u = Err e
+               end).
+Proof. exact reach_setters_exact. Qed.
+Print Assumptions C03_setters_exact.
+
+(* Ellipsis in every position.  For every reachable dataset and every index expression with one
+   Ellipsis — leading, trailing or between any two items — that stands for k >= 1 axes, indexing
+   gives the SAME outcome (same error, or the same new state: NumPy-indexed data, view/copy, axis
+   order, calibration, class) as the expression with the k full slices written out.  Together with
+   C03_getitem_axes this covers the Ellipsis clause for all positions at once. *)
+Theorem C03_getitem_ellipsis_any_position :
+  forall (FR : list Z -> list Z -> list nat -> list Z -> list Z) (divf : Z -> Z -> Z)
+         (ops : list op) (t : nat) (pre post : list index) (k : nat),
+    let s := run FR divf empty_state ops in
+    count_ell pre = 0 -> count_ell post = 0 -> 1 <= k ->
+    length pre + k + length post = length (o_shape (observe s t)) ->
+    getitem s t (pre ++ IEll :: post) = getitem s t (pre ++ repeat full k ++ post).
+Proof. exact reach_getitem_ellipsis. Qed.
+Print Assumptions C03_getitem_ellipsis_any_position.
+
+(* ... and on the SPECIFICATION side NumPy's own result is the same for both spellings, for every
+   array (no reachability needed) *)
+Theorem C03_np_index_ellipsis :
+  forall (sh : list nat) (fl : list Z) (pre post : list index) (k : nat),
+    count_ell pre = 0 -> count_ell post = 0 -> length pre + k + length post = length sh -> 1 <= k ->
+    np_index sh fl (pre ++ IEll :: post) = np_index sh fl (pre ++ repeat full k ++ post).
+Proof. exact np_index_ellipsis. Qed.
+Print Assumptions C03_np_index_ellipsis.
+
+(* Dataset4dstem.get_dp_mean / get_dp_max / get_dp_median on any reachable dataset: when the call
+   succeeds the target is a 4-D Dataset4dstem and the result is a NEW Dataset2d over the detector
+   axes (2, 3) carrying exactly their origin, sampling and units, in order.  (That the source and
+   every other dataset are untouched, that nothing is overwritten and that the result is coherent
+   is C03_source_untouched / C03_no_buffer_writes / C03_coherent_reachable, whose operation
+   alphabet contains these calls.) *)
+Theorem C03_dp_reduction_axes :
+  forall (FR : list Z -> list Z -> list nat -> list Z -> list Z) (divf : Z -> Z -> Z)
+         (ops : list op) (t : nat) (r : reducer) (s' : state),
+    let s := run FR divf empty_state ops in
+    t < length (dss s) -> reduce_dp divf s t r = Ok s' ->
+    let src := observe s t in
+    let res := observe s' (length (dss s)) in
+    length (dss s') = S (length (dss s)) /\
+    o_cls src = D4stem /\ length (o_shape src) = 4 /\
+    o_cls res = D2 /\ o_shape res = lastn 2 (o_shape src) /\
+    o_origin res = lastn 2 (o_origin src) /\ o_sampling res = lastn 2 (o_sampling src) /\
+    o_units res = lastn 2 (o_units src).
+Proof. exact reach_reduce_dp. Qed.
+Print Assumptions C03_dp_reduction_axes.
+
+(* Dataset4dstem.get_virtual_image: a NEW Dataset2d over the scan axes (0, 1) with exactly their
+   calibration; it is only produced for a well-formed detector (a mask of the detector shape, a
+   circle or an annulus). *)
+Theorem C03_virtual_image_axes :
+  forall (FR : list Z -> list Z -> list nat -> list Z -> list Z) (divf : Z -> Z -> Z)
+         (ops : list op) (t : nat) (dt : detector) (s' : state),
+    let s := run FR divf empty_state ops in
+    t < length (dss s) -> virtual_image s t dt = Ok s' ->
+    let src := observe s t in
+    let res := observe s' (length (dss s)) in
+    length (dss s') = S (length (dss s)) /\
+    o_cls src = D4stem /\ length (o_shape src) = 4 /\
+    o_cls res = D2 /\ o_shape res = firstn 2 (o_shape src) /\
+    o_origin res = firstn 2 (o_origin src) /\ o_sampling res = firstn 2 (o_sampling src) /\
+    o_units res = firstn 2 (o_units src) /\
+    (exists mask, detector_mask (nth 2 (o_shape src) 0) (nth 3 (o_shape src) 0) dt = Ok mask).
+Proof. exact reach_virtual_image. Qed.
+Print Assumptions C03_virtual_image_axes.
+
+(* Slices with any step, negative ones included (SPEC side, CPython's PySlice_AdjustIndices): for
+   every axis length, all bounds (omitted, negative, beyond the ends) and every non-zero step, the
+   indices start + step*k, k < slice_len, are exactly Python's range(start, stop, step): each lies
+   inside the axis and strictly before `stop` in the direction of travel, and the next one would
+   reach or pass `stop`.  (np_index reads the source at exactly these indices; C03_getitem_axes
+   multiplies the sampling by this step.) *)
+Theorem C03_slice_is_python_range :
+  forall (a b c : option Z) (n start stop step : Z),
+    (0 <= n)%Z -> slice_indices a b c n = Some (start, stop, step) ->
+    let len := slice_len start stop step in
+    (step <> 0)%Z /\ (0 <= len)%Z /\
+    (forall k, (0 <= k < len)%Z ->
+       (0 <= start + step * k < n)%Z /\
+       (if (0 <? step)%Z then (start + step * k < stop)%Z else (stop < start + step * k)%Z)) /\
+    (if (0 <? step)%Z then (stop <= start + step * len)%Z else (start + step * len <= stop)%Z).
+Proof. exact slice_python_range. Qed.
+Print Assumptions C03_slice_is_python_range.
+
+(* The NumPy-indexing specification is well defined.  For EVERY array shape, buffer and index
+   expression that np_index accepts (negative bounds and steps, Ellipsis anywhere, integer lists with
+   broadcasting, separated or not): the result has exactly prod(result shape) elements and each of
+   them is read at an offset j < prod(source shape) of the source buffer — nothing is ever read
+   outside the array, so with C03_getitem_data every element of ds[idx].array is an element of
+   ds.array. *)
+Theorem C03_np_index_in_bounds :
+  forall (sh : list nat) (fl : list Z) (idx : list index) (v : npres),
+    np_index sh fl idx = Ok v ->
+    length (np_flat v) = prodn (np_shape v) /\
+    Forall (fun x => exists j, j < prodn sh /\ x = nth j fl 0%Z) (np_flat v).
+Proof. exact np_index_in_bounds. Qed.
+Print Assumptions C03_np_index_in_bounds.
+
+(* ------------------------------------------------------------------ non-vacuity (round 3) *)
+(* ds[-1::-2] on an axis of length 5 reads 4, 2, 0 *)
+Example C03_nonvacuous_slice :
+  slice_indices (Some (-1)%Z) None (Some (-2)%Z) 5 = Some (4, -1, -2)%Z /\ slice_len 4 (-1) (-2) = 3%Z.
+Proof. split; reflexivity. Qed.
+
+(* setters: a nested list that flattens to three numbers is accepted; a str is a ValueError, None
+   and a ragged list are TypeErrors, a units value that is no str/list/tuple is a TypeError *)
+Example C03_nonvacuous_setters :
+  (exists s', set_origin ex_state 0 (NNested [[7; 8; 9]]%Q) = Ok s' /\
+              o_origin (observe s' 0) = [7; 8; 9]%Q /\ o_sampling (observe s' 0) = [1 # 2; 1 # 4; 2]%Q) /\
+  set_sampling ex_state 0 NStr = Err ValueErr /\ set_origin ex_state 0 NNone = Err TypeErr /\
+  set_origin ex_state 0 (NNested [[1; 2]; [3]]%Q) = Err TypeErr /\
+  set_origin ex_state 0 (NNonNum 3) = Err ValueErr /\ set_units ex_state 0 UOther = Err TypeErr.
+Proof. split; [eexists; vm_compute; repeat split; reflexivity|repeat split; vm_compute; reflexivity]. Qed.
+
+(* Ellipsis between an integer and a list (it stands for one axis): accepted, and separated *)
+Example C03_nonvacuous_ellipsis :
+  exists s', getitem ex_state 0 ([IInt 0] ++ IEll :: [IList [1; 2]%Z]) = Ok s' /\
+             getitem ex_state 0 ([IInt 0] ++ repeat full 1 ++ [IList [1; 2]%Z]) = Ok s' /\
+             o_shape (observe s' 1) = [2; 3].
+Proof. eexists. vm_compute. repeat split; reflexivity. Qed.
+
+Definition ex_stem : state :=
+  run FR0 Z.div empty_state
+      [OFromArray D4stem [2; 2; 3; 2] (map Z.of_nat (seq 0 24))
+                  (Some (NList [0; 1; -2; 1 # 2]%Q)) (Some (NList [1; 2; 1 # 2; 3]%Q))
+                  (Some (UList ["nm"; "nm"; "mrad"; "A^-1"]%string))].
+
+Example C03_nonvacuous_reductions :
+  (exists s', reduce_dp Z.div ex_stem 0 RMax = Ok s' /\ o_shape (observe s' 1) = [3; 2] /\
+              o_flat (observe s' 1) = [18; 19; 20; 21; 22; 23]%Z /\
+              o_units (observe s' 1) = ["mrad"; "A^-1"]%string) /\
+  (exists s', virtual_image ex_stem 0 (DCircle 1 (1 # 2) 1) = Ok s' /\ o_shape (observe s' 1) = [2; 2] /\
+              o_origin (observe s' 1) = [0; 1]%Q) /\
+  virtual_image ex_stem 0 DBad = Err ValueErr /\
+  reduce_dp Z.div ex_state 0 RMean = Err OtherErr.
+Proof.
+  split; [eexists; vm_compute; repeat split; reflexivity|].
+  split; [eexists; vm_compute; repeat split; reflexivity|].
+  split; vm_compute; reflexivity.
+Qed.
